@@ -113,10 +113,39 @@ def _classes(ro_xml):
     return sorted(cl), len(xs)
 
 
+def check_message_stories(mo):
+    """script / body of the stories a message carries (StorySend.story, StoryAppend.stories ...)."""
+    from checks.c20 import ACCESS
+    fails = []
+    kind = type(mo).__name__
+    acc = ACCESS.get(kind, {})
+    names = [acc[r] for r in ('payload',) if r in acc] + (['story'] if kind == 'StorySend' else [])
+    for name in names:
+        ok, v = call(mo, name, fails, PROP, kind)
+        if not ok or v is None:
+            continue
+        for obj in (list(v) if isinstance(v, (list, tuple)) else [v]):
+            if type(obj).__name__ != 'Story':
+                continue
+            x = obj.xml
+            ok1, sc = call(obj, 'script', fails, PROP, f'{kind}.{name}->Story')
+            if ok1 and sc != access.x_script(x):
+                fails.append(Failure(PROP, f'C17|{kind}.{name}|Story.script|unfaithful',
+                                     f'{sc!r} vs {access.x_script(x)!r}', access.x_script(x), sc))
+            ok2, bd = call(obj, 'body', fails, PROP, f'{kind}.{name}->Story')
+            if ok2 and not _body_eq(bd, access.x_body(x)):
+                fails.append(Failure(PROP, f'C17|{kind}.{name}|Story.body|unfaithful',
+                                     f'{_showlib(bd)} vs {_show(access.x_body(x))}'))
+    return fails
+
+
 def judge(ev):
     if ev.obs.ro is None:
         return []
-    return check(ev.obs.ro)
+    fails = check(ev.obs.ro)
+    if ev.obs.msg is not None:
+        fails += check_message_stories(ev.obs.msg)
+    return fails
 
 
 def record(col, ev):
